@@ -677,6 +677,7 @@ class Opts:
         self.no_inline = set(no_inline)
         self.max_total_steps = 400000    # budget of one explore() call (all paths together)
         self.loop_hooks = {}         # fn id -> hook object (on_generalise / on_rearrival): specification-supplied loop invariants
+        self.loop_candidates = True  # try the generic candidate relations (v <= w, v >= w) at generalised loop heads
         self.loop_delay = 0          # arrivals to pass before the base snapshot of a generalised loop is taken
         self.unroll_loops = True     # False: generalise (widen) at the 2nd arrival at a loop head instead of unrolling
         self.precision = 'sym'      # Formatter::precision(): 'sym' (fork None / unknown), None, or a concrete usize
@@ -926,8 +927,12 @@ class Interp:
         return self.MAX_UNROLL if self.opts.unroll_loops else 1
 
     def snapshot(self, st):
-        return {'frames': [(f.fn['id'] if f.fn else None, dict(f.L)) for f in st.frames],
-                'pframes': {k: dict(f.L) for k, f in st.pframes.items()}}
+        frames = [(f.fn['id'] if f.fn else None, dict(f.L)) for f in st.frames]
+        top = st.frames[-1]
+        if top.fn is not None and top.body is top.fn:
+            lv = live_in(top.fn, top.bb)
+            frames[-1] = (top.fn['id'], {k: v for k, v in top.L.items() if not isinstance(k, int) or k in lv})
+        return {'frames': frames, 'pframes': {k: dict(f.L) for k, f in st.pframes.items()}}
 
     def generalise(self, st, snap, prev):
         """replace every value that differs between `snap` and the current state by a fresh atom with widened bounds;
@@ -937,8 +942,13 @@ class Interp:
         stable = []         # polys of Int values that did not change (candidates for relations)
         changed = []        # (setter, old Int, new Int)
         ctx = {'stable': stable, 'changed': changed}
+        top = st.frames[-1]
+        lv = live_in(top.fn, top.bb) if (top.fn is not None and top.body is top.fn) else None
         for (fid, oldL), f in zip(snap['frames'], st.frames):
             for k in list(f.L.keys()):
+                if f is top and lv is not None and isinstance(k, int) and k not in lv:
+                    f.L[k] = HAVOC          # dead at the loop head
+                    continue
                 if k in oldL:
                     f.L[k] = self.gen_value(st, oldL[k], f.L[k], ctx)
         for key, oldL in snap['pframes'].items():
@@ -949,7 +959,7 @@ class Interp:
                 if k in oldL:
                     f.L[k] = self.gen_value(st, oldL[k], f.L[k], ctx)
         invs = []
-        for (a, old, new) in changed:
+        for (a, old, new) in (changed if self.opts.loop_candidates else []):
             ap = patom(a)
             seen = set()
             entry = []
@@ -970,8 +980,13 @@ class Interp:
                             invs.append((a, w, rel))
                     except Infeasible:
                         pass
-        return {'snap': self.snapshot(st), 'atoms': set(a for a, _, _ in changed), 'invs': invs,
-                'bounds': {a: st.bounds.get(a) for a, _, _ in changed}}
+        atoms_ = set(a for a, _, _ in changed)
+        bounds_ = {a: st.bounds.get(a) for a, _, _ in changed}
+        if prev is not None:
+            atoms_ |= prev['atoms']         # atoms generalised in earlier rounds stay generalised
+            for a, b in prev['bounds'].items():
+                bounds_.setdefault(a, b)
+        return {'snap': self.snapshot(st), 'atoms': atoms_, 'invs': invs, 'bounds': bounds_}
 
     def gen_value(self, st, old, new, ctx):
         if isinstance(old, Int) and isinstance(new, Int):
@@ -1918,3 +1933,105 @@ def widen_down(v, ty):
 def add_thresholds(consts):
     for c in consts:
         THRESHOLDS.update((c, c - 1, c + 1, 10 * c, 10 * c + 9, 10 * (c - 1) + 9))
+
+
+_LIVE = {}
+
+
+def _uses_defs(fn):
+    """per block: (use-before-def set, def set); address-taken locals are returned separately (always live)"""
+    addr = set()
+    res = []
+
+    def op_uses(o, acc):
+        if isinstance(o, dict):
+            pl = o.get('copy') or o.get('move')
+            if pl is not None:
+                acc.add(pl['local'])
+                for e in pl['proj']:
+                    if isinstance(e, dict) and 'index' in e:
+                        acc.add(e['index'])
+    for b in fn['blocks']:
+        use, deff = set(), set()
+
+        def use_(l):
+            if l not in deff:
+                use.add(l)
+        for s in b['stmts']:
+            if 'assign' not in s:
+                if 'setdiscr' in s:
+                    use_(s['setdiscr']['local'])
+                continue
+            rv = s['rv']
+            acc = set()
+            for k in ('use', 'l', 'r', 'x', 'repeat'):
+                if k in rv:
+                    op_uses(rv[k], acc)
+            for o in rv.get('ops', []):
+                op_uses(o, acc)
+            for k in ('place', 'discr'):
+                if k in rv and isinstance(rv[k], dict) and 'local' in rv[k]:
+                    acc.add(rv[k]['local'])
+                    if k == 'place':
+                        addr.add(rv[k]['local'])
+                    for e in rv[k]['proj']:
+                        if isinstance(e, dict) and 'index' in e:
+                            acc.add(e['index'])
+            for l in acc:
+                use_(l)
+            pl = s['assign']
+            if pl['proj']:
+                use_(pl['local'])
+                for e in pl['proj']:
+                    if isinstance(e, dict) and 'index' in e:
+                        use_(e['index'])
+            else:
+                deff.add(pl['local'])
+        t_ = b['term']
+        if isinstance(t_, dict):
+            acc = set()
+            for k in ('switch', 'assert'):
+                if k in t_:
+                    op_uses(t_[k], acc)
+            for o in t_.get('ops', []) or []:
+                op_uses(o, acc)
+            if 'call' in t_:
+                op_uses(t_['call'], acc)
+                for a in t_['args']:
+                    op_uses(a, acc)
+            for l in acc:
+                use_(l)
+            if 'call' in t_:
+                d = t_['dest']
+                if d['proj']:
+                    use_(d['local'])
+                else:
+                    deff.add(d['local'])
+        elif t_ == 'return':
+            use_(0)
+        res.append((use, deff))
+    return res, addr
+
+
+def live_in(fn, bb):
+    """locals live on entry to block bb (backward dataflow over the MIR CFG; address-taken locals are always live)"""
+    key = fn['id']
+    if key not in _LIVE:
+        from .mir import successors
+        ud, addr = _uses_defs(fn)
+        n = len(fn['blocks'])
+        live = [set() for _ in range(n)]
+        changed = True
+        while changed:
+            changed = False
+            for i in range(n - 1, -1, -1):
+                out = set()
+                for s in successors(fn['blocks'][i]['term']):
+                    if 0 <= s < n:
+                        out |= live[s]
+                new = ud[i][0] | (out - ud[i][1])
+                if new != live[i]:
+                    live[i] = new
+                    changed = True
+        _LIVE[key] = ([l | addr for l in live], addr)
+    return _LIVE[key][0][bb]
